@@ -16,6 +16,7 @@ func init() {
 			{"C01.split", ruleC01Split, ""},
 			{"C01.addressing", ruleC01Addressing, ""},
 			{"C01.chain-links", ruleC01ChainLinks, ""},
+			{"C01.fresh-results", ruleC14Fresh, ""},
 			{"C01.addressing-writers", ruleAddressingWriters, ""},
 			{"C01.mapping", ruleC17, ""},
 			{"C01.key-limits", ruleC16Consts, ""},
@@ -31,6 +32,8 @@ func init() {
 	register("C06", &propDef{
 		Rules: []ruleDef{
 			{"C06.sync-reaches-fsync", ruleC06SyncReaches, ""},
+			{"C06.sequence-monotonic", ruleC03SequenceMonotonic, ""},
+			{"C06.error-fatal", ruleErrorFatal("(*pogreb.DB).Sync", "(*pogreb.DB).Put", "(*pogreb.DB).Delete"), "primary"},
 			{"C06.sync-mode", ruleSyncMode, ""},
 			{"C06.guarded", ruleGuarded, ""},
 			{"C06.sync-error-fatal", ruleSyncErrorFatal, ""},
@@ -47,6 +50,9 @@ func init() {
 	register("C09", &propDef{
 		Rules: []ruleDef{
 			{"C09.sync-before-close", ruleC09SyncBeforeClose, ""},
+			{"C09.sequence-monotonic", ruleC03SequenceMonotonic, ""},
+			{"C09.open-order", ruleOpenOrder, ""},
+			{"C09.error-fatal", ruleErrorFatal("(*pogreb.DB).Close"), "primary"},
 			{"C09.sync-error-fatal", ruleSyncErrorFatal, ""},
 			{"C09.close-not-internal", ruleCloseNotInternal, ""},
 			{"C09.commit-last", ruleCloseOrder, ""},
@@ -63,6 +69,8 @@ func init() {
 		Rules: []ruleDef{
 			{"C15.name-families", ruleC15NameFamilies, ""},
 			{"C15.seal-sites", ruleSealSites, ""},
+			{"C15.mapping", ruleC17, ""},
+			{"C15.worker-tickers", ruleWorkerTickers, ""},
 			{"C15.backup-closes-files", ruleBackupClosesFiles, ""},
 			{"C15.segment-id-scan", ruleSegmentIDScan, ""},
 			{"C15.remove-only-compaction", ruleRemoveSegmentOnlyCompaction, ""},
@@ -80,6 +88,7 @@ func init() {
 			{"C04.size-mirror", ruleC04SizeMirror, ""},
 			{"C04.unlock-owner", ruleCloseOrder, ""},
 			{"C04.open-order", ruleOpenOrder, ""},
+			{"C04.error-fatal", ruleErrorFatal("pogreb.Open"), "primary"},
 			{"C04.close-not-internal", ruleCloseNotInternal, ""},
 			{"C04.remove-only-compaction", ruleRemoveSegmentOnlyCompaction, ""},
 			{"C04.older-first", ruleC03OlderFirst, ""},
@@ -113,6 +122,9 @@ func init() {
 	register("C07", &propDef{
 		Rules: []ruleDef{
 			{"C07.guarded", ruleGuarded, ""},
+			{"C07.chain-exit", ruleC01ChainExit, ""},
+			{"C07.liveness", ruleC05Liveness, ""},
+			{"C07.match-equal", ruleC01MatchEqual, ""},
 			{"C07.one-section", ruleOneSection, ""},
 			{"C07.balanced", ruleBalanced, ""},
 			{"C07.fs-readers-pure", ruleFSReadersPure, ""},
@@ -127,6 +139,8 @@ func init() {
 	register("C10", &propDef{
 		Rules: []ruleDef{
 			{"C10.guarded", ruleGuarded, ""},
+			{"C10.one-section", ruleOneSection, ""},
+			{"C10.scan-cursor", ruleC11Cursor, ""},
 			{"C10.balanced", ruleBalanced, ""},
 			{"C10.lock-order", ruleLockOrder, ""},
 			{"C10.goroutine", ruleGoroutine, ""},
@@ -146,6 +160,8 @@ func init() {
 		Rules: []ruleDef{
 			{"C14.no-alias-out", ruleC14NoAliasOut, ""},
 			{"C14.no-retain-in", ruleC14NoRetainIn, ""},
+			{"C14.guarded", ruleGuarded, ""},
+			{"C14.one-section", ruleOneSection, ""},
 			{"C14.returned-owned", ruleC14ReturnedOwned, ""},
 			{"C14.copy-inside-lock", ruleC14CopyInsideLock, ""},
 			{"C14.fresh-results", ruleC14Fresh, ""},
@@ -167,6 +183,7 @@ func init() {
 			{"C05.older-first", ruleC03OlderFirst, ""},
 			{"C05.chain-exit", ruleC01ChainExit, ""},
 			{"C05.guarded", ruleGuarded, ""},
+			{"C05.error-fatal", ruleErrorFatal("(*pogreb.DB).Compact"), "primary"},
 			{"C05.remove-only-compaction", ruleRemoveSegmentOnlyCompaction, ""},
 			{"C05.seal-sites", ruleSealSites, ""},
 			{"C05.no-retained-locations", ruleNoRetainedLocations, "primary"},
@@ -183,6 +200,7 @@ func init() {
 		Rules: []ruleDef{
 			{"C03.lock-brackets", ruleCloseOrder, ""},
 			{"C03.open-order", ruleOpenOrder, ""},
+			{"C03.error-fatal", ruleErrorFatal("(*pogreb.DB).Put", "(*pogreb.DB).Delete", "(*pogreb.DB).Compact"), "primary"},
 			{"C03.close-not-internal", ruleCloseNotInternal, ""},
 			{"C03.remove-only-compaction", ruleRemoveSegmentOnlyCompaction, ""},
 			{"C03.single-write", ruleC03SingleWrite, ""},
@@ -206,6 +224,8 @@ func init() {
 		Rules: []ruleDef{
 			{"C11.chain-exit", ruleC01ChainExit, ""},
 			{"C11.cursor", ruleC11Cursor, ""},
+			{"C11.guarded", ruleGuarded, ""},
+			{"C11.one-section", ruleOneSection, ""},
 			{"C11.chain-drain", ruleC11Drain, ""},
 			{"C11.split-forward", ruleC01Split, ""},
 			{"C11.addressing-writers", ruleAddressingWriters, ""},
@@ -222,6 +242,8 @@ func init() {
 			{"C12", ruleC12, ""},
 			{"C12.guarded", ruleGuarded, ""},
 			{"C12.write-ahead", ruleC03WriteAhead, ""},
+			{"C12.sequence-monotonic", ruleC03SequenceMonotonic, ""},
+			{"C12.error-fatal", ruleErrorFatal("(*pogreb.DB).Backup"), "primary"},
 			{"C12.older-first", ruleC03OlderFirst, ""},
 		},
 		Explanation: "Decides: Backup holds maintenanceMu for all its file-system calls, guarded accesses and DB.mu acquisitions (compaction excluded for the whole backup, capture included); the copy bounds are file.size of not-full segments captured with DB.mu held; whole-file io.Copy is used only for segments absent from the captured map and io.CopyN is bounded by the captured size; every success return creates the lock file in the backup; the source file system is only opened read-only; datalog state is never read without DB.mu (guarded). NOT decided: that the opened backup equals the state at one instant for all schedules.",
@@ -234,6 +256,7 @@ func init() {
 		Rules: []ruleDef{
 			{"C08.layout", ruleRecordLayout, ""},
 			{"C08.gates", ruleC08Gates, ""},
+			{"C08.open-order", ruleOpenOrder, ""},
 			{"C08.logger-non-nil", ruleLoggerNonNil, ""},
 			{"C08.compact-complete", ruleC03CompactComplete, ""},
 			{"C08.size-mirror", ruleC04SizeMirror, ""},
@@ -251,6 +274,7 @@ func init() {
 			{"C18.names", ruleC18Names, ""},
 			{"C18.gob", ruleC18Gob, ""},
 			{"C18.name-families", ruleC15NameFamilies, ""},
+			{"C18.sequence-monotonic", ruleC03SequenceMonotonic, ""},
 			{"C18.hash-absorption", ruleHashAbsorption, ""},
 			{"C18.key-limits", ruleC16Consts, ""},
 			{"C18.single-write", ruleC03SingleWrite, ""},
@@ -270,6 +294,8 @@ func init() {
 			{"C02.close-persists", ruleCloseOrder, ""},
 			{"C02.sync-before-close", ruleC09SyncBeforeClose, ""},
 			{"C02.open-order", ruleOpenOrder, ""},
+			{"C02.first-bucket", ruleFirstBucket, ""},
+			{"C02.names", ruleC18Names, ""},
 			{"C02.close-not-internal", ruleCloseNotInternal, ""},
 			{"C02.errs", ruleErrs, ""},
 			{"C02.swap-never-sealed", ruleC05SwapNeverSealed, ""},
@@ -311,6 +337,7 @@ func init() {
 	register("C17", &propDef{
 		Rules: []ruleDef{
 			{"C17", ruleC17, ""},
+			{"C17.header", ruleC18Header, ""},
 			{"C17.sub-paths", ruleSubPaths, ""},
 			{"C17.backup", ruleC12, ""},
 			{"C17.size-mirror", ruleC04SizeMirror, ""},
